@@ -330,6 +330,7 @@ fn touched(op: &Op, before: &Url, after: &Url) -> Vec<&'static str> {
         Op::SetUsername(_) | Op::Quirk("username", _) => vec!["username"],
         Op::SetScheme(_) | Op::Quirk("protocol", _) => vec!["scheme", "port"],
         Op::Quirk(_, _) => vec![],
+        Op::Join(_) => vec!["scheme", "username", "password", "host", "port", "path", "query", "fragment"],
     }
 }
 
@@ -448,7 +449,9 @@ pub fn prop_c08(base: &Url, reference: &str) -> Option<String> {
             // known (expected_failures.txt): file URLs and drive letters may drop the host
             let file_drive = base.scheme() == "file";
             if !has_scheme && !two_slashes && !file_drive {
-                let auth = |x: &Url| x[..Position::BeforePath].to_string();
+                // without authority the '/.' marker may appear or disappear in front of the path:
+                // what must be kept is the scheme and the absence of an authority
+                let auth = |x: &Url| if x.has_authority() { x[..Position::BeforePath].to_string() } else { format!("{}:", x.scheme()) };
                 if auth(u) != auth(&base) {
                     return Some(format!("reference without scheme/authority changed the authority: {:?}", u.as_str()));
                 }
